@@ -296,10 +296,16 @@ func Run(ctx *common.Ctx) {
 	if ctx.Thorough() {
 		nscope = 600
 	}
-	scopeJobs := genScopes(ctx, nscope)
+	scopeJobs := append(sysScenarios(ctx.Rng), genScopes(ctx, nscope)...)
 	for k := range scopeJobs {
 		scopeJobs[k].Job.ID = len(all)
 		all = append(all, scopeJobs[k].Job)
+	}
+	// the lock discipline of the package tables: the whole alphabet, every run (third correspondence)
+	lockJobs := genLockProbes(1)
+	for k := range lockJobs {
+		lockJobs[k].ID = len(all)
+		all = append(all, lockJobs[k])
 	}
 	// two plain workers side by side
 	half := len(all) / 2
@@ -387,7 +393,7 @@ func Run(ctx *common.Ctx) {
 	for k := range scopeJobs {
 		sj := &scopeJobs[k]
 		oc := &outs[len(progs)+len(impls)+k]
-		ctx.Hist("shape:scopes")
+		ctx.Hist("shape:" + sj.Shape)
 		ctx.Hist(fmt.Sprintf("scopes:routines:%d", len(sj.Probes)))
 		ctx.Meta.Evaluations++
 		term, complaint := scopeCase(sj, oc)
@@ -397,8 +403,34 @@ func Run(ctx *common.Ctx) {
 			continue
 		}
 		sterms = append(sterms, term)
-		sdescs = append(sdescs, map[string]any{"shape": "scopes", "routines": sj.Job.Runs, "model_operations": sj.Codes, "procs": sj.Job.Procs})
+		sdescs = append(sdescs, map[string]any{"shape": sj.Shape, "setup": sj.Job.Setup, "routines": sj.Job.Runs, "model_operations": sj.Codes, "procs": sj.Job.Procs})
 		distinct[term] = true
+	}
+
+	var lterms []string
+	var ldescs []any
+	for k := range lockJobs {
+		oc := &outs[len(progs)+len(impls)+len(scopeJobs)+k]
+		ctx.Hist("shape:lock-probe")
+		ctx.Meta.Evaluations++
+		what := map[string]any{"operation": lockOps[k].Name, "form": lockJobs[k].Runs[0], "setup": lockJobs[k].Setup}
+		if oc.Res == nil || oc.Res.Err != "" || oc.Res.Hang || !oc.Res.Probed {
+			msg := oc.Crash
+			if oc.Res != nil {
+				msg = fmt.Sprintf("err=%q hang=%v probed=%v", oc.Res.Err, oc.Res.Hang, oc.Res.Probed)
+			}
+			ctx.Violate("lock probe: the operation could not be probed", what, msg+"\n"+oc.Stderr, "the operation finishes or waits for the package mutex")
+			continue
+		}
+		if strings.HasPrefix(oc.Res.Value, "error:") {
+			ctx.Violate("lock probe: the probed operation raised an error", what, oc.Res.Value, "a value")
+			continue
+		}
+		what["waited_for_the_package_mutex"] = oc.Res.Blocked
+		what["value"] = oc.Res.Value
+		lterms = append(lterms, fmt.Sprintf("(%s, %s)", lockOps[k].Name, common.GBool(oc.Res.Blocked)))
+		ldescs = append(ldescs, what)
+		distinct["lock:"+lockOps[k].Name] = true
 	}
 
 	// ---- race-enabled worker: a sample of the model programs, the implementation-only jobs, the witnesses ----
@@ -485,4 +517,7 @@ func Run(ctx *common.Ctx) {
 	sheader := "From C17 Require Import Model ScopeModel Corr.\nOpen Scope nat_scope.\n"
 	sfooter := "Definition res := Eval vm_compute in scheck_all cases.\nPrint res.\nDefinition scope_probes_compared := Eval vm_compute in scope_probes cases.\nPrint scope_probes_compared.\nDefinition scopes_reported_synchronized := Eval vm_compute in scopes_seen_synchronized cases.\nPrint scopes_reported_synchronized.\n"
 	ctx.WriteShards("scopes", sheader, "scase", sfooter, sterms, sdescs, 4)
+	lheader := "From C17 Require Import Model TableModel Corr.\nOpen Scope nat_scope.\n"
+	lfooter := "Definition res := Eval vm_compute in tcheck_all cases.\nPrint res.\nDefinition operations_waiting_for_the_package_mutex := Eval vm_compute in operations_seen_waiting_for_the_package_mutex cases.\nPrint operations_waiting_for_the_package_mutex.\n"
+	ctx.WriteShards("locks", lheader, "tcase", lfooter, lterms, ldescs, 1)
 }
